@@ -78,6 +78,7 @@ def body_factory(tier, seed):
     def body(rep, support_ok):
         schemas = {"1.6": G.load_schemas("v16"), "2.0.1": G.load_schemas("v201")}
         terms, meta = [], []
+        n_lb = [0]
         for (version, action, req, resp, as_dc) in cases(tier, seed):
             sreq, sresp = GD.snake(req), GD.snake(resp)
             try:
@@ -93,11 +94,17 @@ def body_factory(tier, seed):
                 r = N.make_result(_v, _a, _s, _d)
                 holder["returned"] = N.fields_of(r)
                 return r
-            res = N.run_loopback(version, action, obj, behave)
+            # every eighth exchange with validation switched off on both sides (call and route): the payload travels
+            # the same way -- unset optionals stay off the wire, names are converted
+            n_lb[0] += 1
+            both_skip = n_lb[0] % 8 == 5
+            res = N.run_loopback(version, action, obj, behave, skip=both_skip, route_skip=both_skip)
             rep.count(json.dumps([version, action, req, resp, as_dc], default=repr, sort_keys=True))
             rep.add("nested-as-" + (as_dc if isinstance(as_dc, str) else "dataclasses" if as_dc else "dicts"))
+            if both_skip:
+                rep.add("validation-skipped-on-both-sides")
             replay = {"kind": "loopback", "version": version, "action": action, "request": req, "response": resp,
-                      "nested_as_dataclasses": as_dc, "observation": {k: (v if k != "outcome" else v[:3]) for k, v in res.items() if k != "frames"}}
+                      "nested_as_dataclasses": as_dc, "validation_skipped": both_skip, "observation": {k: (v if k != "outcome" else v[:3]) for k, v in res.items() if k != "frames"}}
             tag = "%s:%s" % (version, action)
             bad = []
             if res["call"] is None:
@@ -128,6 +135,8 @@ def body_factory(tier, seed):
                 bad.append(("result:" + ",".join(O.diff_desc(oc[1], sresp))[:120], "call() returned %r, the handler returned %r" % (oc[1], holder.get("returned"))))
             for key, what in bad:
                 rep.violation("C06:%s:%s" % (key, tag), what, replay)
+            if both_skip:
+                continue        # the model's loopback has validating routes only: these exchanges are judged by the oracles above
             try:
                 terms.append("mkN %s (Some (HRet %s)) (JStr \"a-id\") %s %s false false %s" % (
                     "V16" if version == "1.6" else "V201", C.cjson(sresp), C.cs(action),
@@ -168,7 +177,8 @@ def run(rep, tier, seed):
 def replay(d):
     sreq, sresp = GD.snake(d["request"]), GD.snake(d["response"])
     obj = N.make_request(d["version"], d["action"], sreq, d.get("nested_as_dataclasses", False))
-    res = N.run_loopback(d["version"], d["action"], obj, lambda kw: N.make_result(d["version"], d["action"], sresp, d.get("nested_as_dataclasses", False)))
+    res = N.run_loopback(d["version"], d["action"], obj, lambda kw: N.make_result(d["version"], d["action"], sresp, d.get("nested_as_dataclasses", False)),
+                         skip=bool(d.get("validation_skipped")), route_skip=bool(d.get("validation_skipped")))
     print({k: (v if k != "outcome" else v[:3]) for k, v in res.items() if k != "frames"})
     ok = res["kwargs"] is not None and O.same_value(res["kwargs"], sreq) and res["outcome"][0] == "result" and O.same_value(res["outcome"][1], sresp) \
         and O.same_value(json.loads(res["call"])[3], d["request"])
